@@ -52,3 +52,58 @@ Proof.
   split. { unfold others0. repeat constructor; cbn; discriminate. }
   repeat split; discriminate.
 Qed.
+
+(* ---------- C15 over histories: the hypotheses are met by a real history ---------- *)
+From MD.Proofs Require Import OwnersOnly.
+
+(* everything the others did in [ops0] (the owner's own transaction removed), followed by their attempts at every
+   privileged message of every contract *)
+Definition takeover0 : list op :=
+  filter (fun op => match op with Tx s _ _ _ => negb (String.eqb s "owner") | _ => true end) ops0 ++
+  [ Tx "bob" "PM" (WPm (PmUpdateConfig (Some "bob") None None None)) [];
+    Tx "bob" "PM" (WPm (PmUpdateConfig None None None (Some {| ft_pool := "o.a"; ft_swaps := Some false; ft_deposits := None; ft_withdrawals := None |}))) [];
+    Tx "bob" "PM" (WPm (PmOwnership (Transfer "bob" None))) [];
+    Tx "bob" "PM" (WPm (PmOwnership Accept)) [];
+    Tx "bob" "PM" (WPm (PmOwnership Renounce)) [];
+    Tx "carol" "FM" (WFm (FmOwnership (Transfer "carol" None))) [];
+    Tx "carol" "FM" (WFm (FmOwnership Accept)) [];
+    Tx "carol" "FM" (WFm (FmUpdateConfig {| u_fee_collector := Some "carol"; u_epoch_manager := None; u_pool_manager := Some "carol";
+         u_create_fee := None; u_max_farms := None; u_epoch_buffer := None; u_min_unlock := None; u_max_unlock := None;
+         u_expiration := None; u_penalty := None |})) [];
+    Tx "alice" "EM" (WEm (EmUpdateConfig None)) [];
+    Tx "alice" "EM" (WEm (EmUpdateOwnership Accept)) [];
+    Tx "alice" "FC" (WFc Renounce) [];
+    Tx "alice" "FC" (WFc (Transfer "alice" None)) [] ].
+
+Definition settled_b (o : string) (own : ownership) : bool :=
+  match owner own, pending_owner own with Some x, None => String.eqb x o | _, _ => false end.
+
+Definition owners_check : bool :=
+  match genesis_world g0 with
+  | Err _ => false
+  | Ok w0 =>
+      settled_b "owner" (em_own (w_em w0)) && settled_b "owner" (w_fc w0) &&
+      settled_b "owner" (pm_own (w_pm w0)) && settled_b "owner" (fm_own (w_fm w0)) &&
+      (* the history is not just rejections: pools, positions and farms exist afterwards *)
+      let w := run w0 takeover0 in
+      negb (Nat.eqb (List.length (pm_pools (w_pm w))) 0) && negb (Nat.eqb (List.length (fm_positions (w_fm w))) 0) &&
+      negb (Nat.eqb (List.length (fm_farms (w_fm w))) 0)
+  end.
+
+Definition owners_statement : Prop :=
+  owners_check = true /\ Forall (not_signed_by "owner") takeover0 /\
+  "owner" <> EM /\ "owner" <> FC /\ "owner" <> PM /\ "owner" <> FM.
+
+Lemma settled_b_ok o own : settled_b o own = true -> settled o own.
+Proof.
+  unfold settled_b, settled. destruct (owner own) as [x|]; [|discriminate]. destruct (pending_owner own); [discriminate|].
+  intros H. apply String.eqb_eq in H. subst. auto.
+Qed.
+
+Lemma owners_example : owners_statement.
+Proof.
+  unfold owners_statement.
+  split; [vm_compute; reflexivity|].
+  split. { vm_compute. repeat constructor; discriminate. }
+  repeat split; discriminate.
+Qed.
